@@ -138,7 +138,7 @@ pub fn gen(ctx: &Ctx) {
                         9 => vec![te(b"chunked"), "!T".into()],
                         10 => vec![te(*rng.pick(&[&b"Chunked"[..], b" chunked", b"chunked\t", b"CHUNKED"]))],
                         // a user-supplied transfer coding that is not exactly one `chunked` (known finding F37)
-                        11 => vec![te(*rng.pick(&[&b"gzip"[..], b"gzip, chunked", b"chunked, gzip", b"identity"]))],
+                        11 => vec![te(*rng.pick(&[&b"gzip"[..], b"gzip, chunked", b"chunked, gzip", b"identity", b"gzip,\tchunked", b"gzip ,chunked\t"]))],
                         12 => vec![te(b"gzip"), if rng.chance(1, 2) { te(b"chunked") } else { "!T".into() }],
                         13 => vec![te(b"gzip"), format!("={}:{}", hex(b"transfer-encoding"), hex(b"chunked"))],
                         14 => vec![te(b"gzip"), format!("-{}", hex(b"TRANSFER-ENCODING"))],
